@@ -2,6 +2,7 @@
 import hir
 import hirpp
 import panics
+from spec import sgr as sgr_spec
 from core import AnchorMissing, Unrecognised, loc
 from rules import anstyle_common as ac
 from rules import common_parse as cp
@@ -407,6 +408,9 @@ def rule_inventory(facts, rep, crates=None, check_stale=True):
     crates = crates or CRATES
     consts = consts_of(facts, crates)
     tables = table_fns(facts, crates)
+    # EffectIndexIter::next yields only indices below the number of effects (proved by C13's iterators rule, linked in
+    # rule_allowlist_links): a local bound to its items indexes METADATA in bounds
+    panics.YIELD_RANGE["anstyle::effect::EffectIndexIter"] = (0, len(sgr_spec.EFFECT_ORDER) - 1)
     used_allow = set()
     pending = []
     n_sites = 0
@@ -548,6 +552,9 @@ def rule_links(facts, rep):
                 ok = ok and a.get("k") == "local" and hir.is_call(hir.simp(dict(panics.Ctx(b, {}).lets).get((a["name"], a.get("id")), {})), "anstyle::color::Ansi256Color::from_ansi")
     rep.check(ok and len(cs) == 2, "allowlist", "anstyle_lossy::palette::Palette::get_ansi256_ref", "index-is-from_ansi(color)", f"{sorted(cs)}", "")
     # the parser's guards that the Params / intermediates / OSC allowlist entries cite (same rules as C02, evaluated here too)
+    from rules import C13
+    import core
+    C13.rule_iterators(facts, core.Filtered(rep, lambda rule, anchor, instance: "EffectIndexIter" in str(anchor)))
     from rules import C02
     C02.rule_guards(facts, rep)
     C02.rule_params(facts, rep)
